@@ -195,12 +195,33 @@ func worldNatHole(w *World) {
 		time.Sleep(2 * time.Second)
 	}
 	nsessions := w.KnobPick("nsessions", 2, 5, 12)
+	// the same two peers may come back again and again without ever reporting success (between two hard NATs that is
+	// the normal course of events): the server then walks through all its recommendations for the pair, and every one
+	// of them is owed the same guarantees
+	repeatPair := w.KnobBool("same_pair_every_session", 30)
+	var fixedV, fixedC natSide
+	if repeatPair {
+		nsessions = 18
+		mk := func() natSide {
+			base := fmt.Sprintf("%d.%d.%d.%d", r.Range(1, 223), r.Intn(256), r.Intn(256), r.Range(1, 254))
+			port := r.Range(2000, 60000)
+			if r.Intn(3) == 0 {
+				return natSide{mapped: []string{fmt.Sprintf("%s:%d", base, port), fmt.Sprintf("%s:%d", base, port)}} // easy
+			}
+			return natSide{mapped: []string{fmt.Sprintf("%s:%d", base, port), fmt.Sprintf("%s:%d", base, port+r.Range(50, 3000)), fmt.Sprintf("%s:%d", base, port+r.Range(3001, 5000))}} // hard, irregular ports
+		}
+		fixedV, fixedC = mk(), mk()
+		w.Probe("nathole.same_pair_every_session")
+	}
 	var g0 int
 	for i := 0; i < nsessions; i++ {
 		if i == 1 {
 			g0 = frpGoroutines()
 		}
 		vs, cs := genSide(), genSide()
+		if repeatPair {
+			vs, cs = fixedV, fixedC
+		}
 		ts := time.Now().Unix()
 		badSig := r.Intn(8) == 0
 		name := "px"
